@@ -168,7 +168,8 @@ def run_exclude(desc):
                         form = 'SPLIT, exclusion first'
                     else:
                         # an exclusion-only list under NEGATEALL: the implicit inclusion keeps the hidden-name rule
-                        want = (n[:1] != '.' and '/.' not in n) and not match(n, pe, base | dotflag)
+                        # (in name mode `/` is an ordinary character: only a leading dot hides a name)
+                        want = (n[:1] != '.' and not (pathmode and '/.' in n)) and not match(n, pe, base | dotflag)
                         if pathmode and (n.endswith('/') or not n or n.startswith('/') or '//' in n):
                             continue
                         got = match(n, ['!' + pe], base | mod.NEGATE | mod.NEGATEALL)
